@@ -19,6 +19,11 @@ Proof. repeat constructor; intro f; destruct f; vm_compute; reflexivity. Qed.
 Example stages_check : map (fun h => ocheck g0 (run0 h))
   [[]; mats0; mats0 ++ [OpBake]; mats0 ++ [OpBake; OpInitSource 1]; pipe0] = [ROk; ROk; ROk; ROk; ROk].
 Proof. vm_compute. reflexivity. Qed.
+(** the same, history by history: the hypothesis of the lossless-continuation theorem (C15) *)
+Example stages_check_forall :
+  Forall (fun h0 => ocheck g0 (orun g0 (init g0) h0) = ROk)
+    [[]; mats0; mats0 ++ [OpBake]; mats0 ++ [OpBake; OpInitSource 1]; pipe0].
+Proof. repeat constructor; vm_compute; reflexivity. Qed.
 Example pipe_classes : classes (pipe0 ++ [OpCollect 1 false; OpCollect 1 true; OpDictRoundTrip; OpFileRoundTrip])
   = [ROk; ROk; ROk; ROk; ROk; ROk; ROk; ROk; ROk].
 Proof. vm_compute. reflexivity. Qed.
